@@ -6,11 +6,16 @@
    Llab i l + sigma_i p = Llab (i+1) r  is zero  (C06_valid_nonzero_entry is the positive form).
    Chains of any length, any bond dimensions, any commutative ring with involution.
 
-   PARTIAL: chains only.  The tree analogue (ttns_valid_in_sector, validity under TTNS add / apply / push_cano) is
-   not proved here; for trees this property is checked by the dense oracle only (see notes/C06.md).          *)
+   Trees (second half of the file): labels live on the parent bond of every node (Model/TtnsQn.v on top of C11's
+   Model/Ttns.v); sector containment, preservation by TTNS.add (with prefactor folding) / scale / TTNO.apply and the
+   checker are proved for one-component labels and, for the checker, per component of vector labels.
+   PARTIAL: the tree gauge moves (push_cano_to_parent / child, compress_node, update_2site) have no label theorem --
+   their outputs are decided by the proved-sound tree checker; multi-component preservation theorems exist for chains
+   only.                                                                                                          *)
 From Coq Require Import ZArith List Arith Bool.
 Import ListNotations.
-From RV Require Import Base.CRing Base.BigSum Model.Chain Model.Mp Model.Qn Proofs.MpProofs Proofs.QnProofs.
+From RV Require Import Base.CRing Base.BigSum Model.Chain Model.Mp Model.Qn Proofs.MpProofs Proofs.QnProofs
+  Model.QnMask Proofs.QnMaskProofs Model.Ttns Model.TtnsQn Proofs.TtnsQnProofs.
 Local Open Scope Z_scope.
 
 (* the semantic core: valid labels => no amplitude outside the sector *)
@@ -111,6 +116,121 @@ Theorem C06_qn_validb_sound_multi : forall (R : CRing) nc sigsV (m : meta VLab) 
 Proof. exact qn_validbV_sound. Qed.
 Print Assumptions C06_qn_validb_sound_multi.
 
+(* ---------------------------------------------------------------- masks and sweep steps (chains)
+   mask1 / mask2 are the code's get_qn_mask(qnmat, qntot) for cidx = [i] / [i, i+1] (Model/QnMask.v); the code asserts
+   qnidx in cidx. *)
+Theorem C06_mask1_meaning : forall (sg : list Z) (m : metaZ) i l p r, qnidx m = i ->
+  @mask1 ZLab sg m i l p r = true <-> Llab m i l + nth p sg 0 = Llab m (S i) r.
+Proof. exact mask1_meaning. Qed.
+Print Assumptions C06_mask1_meaning.
+
+Theorem C06_mask2_meaning : forall (sg1 sg2 : list Z) (m : metaZ) i l p1 p2 r, (qnidx m = i \/ qnidx m = S i) ->
+  @mask2 ZLab sg1 sg2 m i l p1 p2 r = true <-> Llab m i l + nth p1 sg1 0 + nth p2 sg2 0 = Llab m (S (S i)) r.
+Proof. exact mask2_meaning. Qed.
+Print Assumptions C06_mask2_meaning.
+
+Theorem C06_mask1_components : forall k (sg : list (list Z)) (m : meta VLab) i l p r,
+  @mask1 VLab sg m i l p r = true -> @mask1 ZLab (map (comp k) sg) (proj_meta k m) i l p r = true.
+Proof. exact mask1_comp. Qed.
+Print Assumptions C06_mask1_components.
+
+Theorem C06_mask2_components : forall k (sg1 sg2 : list (list Z)) (m : meta VLab) i l p1 p2 r,
+  @mask2 VLab sg1 sg2 m i l p1 p2 r = true ->
+  @mask2 ZLab (map (comp k) sg1) (map (comp k) sg2) (proj_meta k m) i l p1 p2 r = true.
+Proof. exact mask2_comp. Qed.
+Print Assumptions C06_mask2_components.
+
+(* writing ANY tensor that vanishes outside the mask at the centre keeps the labels valid: the statement that makes the
+   1-site DMRG update and the VMF / CMF parameter packing (cvec2cmat with the mask) sector preserving *)
+Theorem C06_mask_update_valid : forall (R : CRing) sig (sg : list Z) (m : metaZ) (ts : list (nat * T3 R)) i (t' : T3 R),
+  qn_valid3 sig m ts -> qnidx m = i -> (forall p, sig i p = nth p sg 0) ->
+  (forall l p r, @mask1 ZLab sg m i l p r = false -> t' l p r = r0 R) ->
+  qn_valid3 sig m (set_site i (nth (S i) (bdims 1 ts) O, t') ts).
+Proof. exact mask_update_valid. Qed.
+Print Assumptions C06_mask_update_valid.
+
+(* two adjacent sites replaced by factors obeying the svd_qn block contract w.r.t. the re-labelled bond (2-site DMRG
+   update, compress step, _update_ms): labels stay valid *)
+Theorem C06_two_site_update_valid : forall (R : CRing) sig (m : metaZ) (ts : list (nat * T3 R)) i newq newidx (U V : T3 R),
+  qn_valid3 sig m ts -> (S i < length ts)%nat ->
+  (qnidx m = i \/ qnidx m = S i) -> (newidx = i \/ newidx = S i) ->
+  let m' := set_bond m (S i) newq newidx in
+  (forall l p a, (l < nth i (bdims 1 ts) O)%nat -> (a < length newq)%nat ->
+     Llab m i l + sig i p <> Llab m' (S i) a -> U l p a = r0 R) ->
+  (forall a p r, (a < length newq)%nat -> (r < nth (S (S i)) (bdims 1 ts) O)%nat ->
+     Llab m' (S i) a + sig (S i) p <> Llab m (S (S i)) r -> V a p r = r0 R) ->
+  qn_valid3 sig m' (set_site2 i (length newq, U) (nth (S (S i)) (bdims 1 ts) O, V) ts).
+Proof. exact two_site_update_valid. Qed.
+Print Assumptions C06_two_site_update_valid.
+
+(* one QR push step of canonicalise (label part), sweeping right: the labels given to the new bond are those of the block
+   each column of Q lives in, the remainder Rm only connects equal labels and is absorbed by the next site *)
+Theorem C06_push_right_valid : forall (R : CRing) sig (m : metaZ) (ts : list (nat * T3 R)) i (qnew : list Z)
+    (Q : T3 R) (Rm : nat -> nat -> R) d2 (T2 : T3 R),
+  qn_valid3 sig m ts -> qnidx m = i -> nth_error ts (S i) = Some (d2, T2) ->
+  (forall l p a, (l < nth i (bdims 1 ts) O)%nat -> (a < length qnew)%nat ->
+     Llab m i l + sig i p <> nth a qnew 0 -> Q l p a = r0 R) ->
+  (forall a b, (a < length qnew)%nat -> (b < nth (S i) (bdims 1 ts) O)%nat ->
+     nth a qnew 0 <> Llab m (S i) b -> Rm a b = r0 R) ->
+  qn_valid3 sig (set_bond m (S i) qnew (S i))
+    (set_site2 i (length qnew, Q) (d2, absorb_left (nth (S i) (bdims 1 ts) O) Rm T2) ts).
+Proof. exact push_right_valid. Qed.
+Print Assumptions C06_push_right_valid.
+
+(* ... and sweeping left (system "R": the new bond carries RIGHT-block labels, the centre moves to site i) *)
+Theorem C06_push_left_valid : forall (R : CRing) sig (m : metaZ) (ts : list (nat * T3 R)) i (qnr : list Z)
+    (Vt : T3 R) (Um : nat -> nat -> R) d1 (T1 : T3 R),
+  qn_valid3 sig m ts -> qnidx m = S i -> (S i < length ts)%nat -> nth_error ts i = Some (d1, T1) ->
+  (forall a p r, (a < length qnr)%nat -> (r < nth (S (S i)) (bdims 1 ts) O)%nat ->
+     (qntot m - nth a qnr 0) + sig (S i) p <> Llab m (S (S i)) r -> Vt a p r = r0 R) ->
+  (forall b a, (b < d1)%nat -> (a < length qnr)%nat ->
+     Llab m (S i) b <> qntot m - nth a qnr 0 -> Um b a = r0 R) ->
+  qn_valid3 sig (set_bond m (S i) qnr i)
+    (set_site2 i (length qnr, absorb_right d1 T1 Um) (nth (S (S i)) (bdims 1 ts) O, Vt) ts).
+Proof. exact push_left_valid. Qed.
+Print Assumptions C06_push_left_valid.
+
+(* ---------------------------------------------------------------- trees *)
+Theorem C06_ttns_valid_in_sector : forall (R : CRing) (t : ttree R) st g qtot,
+  ttns_qn_valid st t g qtot -> forall s, tamp R t s O <> r0 R -> tcharge st t s = qtot.
+Proof. exact ttns_valid_in_sector. Qed.
+Print Assumptions C06_ttns_valid_in_sector.
+
+(* any sub-tree, any index of its parent bond *)
+Theorem C06_ttns_valid_subtree : forall (R : CRing) (t : ttree R) st g, tvalid st t g -> forall s p, (p < tdim R t)%nat ->
+  tcharge st t s <> nth p (qlab g) 0 -> tamp R t s p = r0 R.
+Proof. exact tvalid_in_sector. Qed.
+Print Assumptions C06_ttns_valid_subtree.
+
+Theorem C06_ttns_add_valid : forall (R : CRing) ca cb (a b : ttree R) st ga gb qtot,
+  ttns_qn_valid st a ga qtot -> ttns_qn_valid st b gb qtot -> tshape R a = tshape R b ->
+  ttns_qn_valid st (tadd_coeff R ca cb a b) (@qadd ZLab ga gb) qtot.
+Proof. exact tadd_coeff_valid. Qed.
+Print Assumptions C06_ttns_add_valid.
+
+Theorem C06_ttns_scale_valid : forall (R : CRing) c (t : ttree R) st g, tvalid st t g -> tvalid st (tscale R c t) g.
+Proof. exact tscale_valid. Qed.
+Print Assumptions C06_ttns_scale_valid.
+
+Theorem C06_ttno_apply_moves_sector : forall (R : CRing) (t : ttree R) (o : otree R) st g go qtot qop,
+  ttns_qn_valid st t g qtot -> ovalid st o go -> odim R o = 1%nat -> qlab go = [qop] -> tshape R t = oshape R o ->
+  ttns_qn_valid st (tapply R o t) (@qapply ZLab g go) (qtot + qop).
+Proof. exact tapply_moves_sector. Qed.
+Print Assumptions C06_ttno_apply_moves_sector.
+
+Theorem C06_ttns_validb_sound : forall (R : CRing) (t : ttree R) st g pt qtot,
+  ttns_validb st g pt qtot = true -> has_tsupport pt t -> dims_agree t g -> tdim R t = 1%nat ->
+  ttns_qn_valid st t g qtot.
+Proof. exact ttns_validb_sound. Qed.
+Print Assumptions C06_ttns_validb_sound.
+
+Theorem C06_ttns_validb_sound_multi : forall (R : CRing) (t : ttree R) nc (st : stree (list Z)) (g : qtree (list Z)) pt qtot,
+  ttns_validbV nc st g pt qtot = true -> has_tsupport pt t -> tdim R t = 1%nat ->
+  forall k, (k < nc)%nat -> dims_agree t (qmap (comp k) g) ->
+  ttns_qn_valid (smap (comp k) st) t (qmap (comp k) g) (comp k qtot).
+Proof. exact ttns_validbV_sound. Qed.
+Print Assumptions C06_ttns_validb_sound_multi.
+
 (* ---------------------------------------------------------------- non-vacuity *)
 Definition ex6_sigs : list (list Z) := [[0; 1]; [0; 1]; [0; 1]].
 (* three sites, all occupied (the empty-adjacent sector 3): a product state, bond dimension 1 *)
@@ -139,3 +259,25 @@ Qed.
 Example C06_ex_checker_rejects :
   qn_validb ex6_sigs (@Build_meta ZLab [[0]; [1]; [1]; [0]] 2%nat 3 false) ex6_pats = false.
 Proof. vm_compute. reflexivity. Qed.
+
+(* a tree: root (one spin) with two leaf children (one spin each), sector 2; bond dimension 2 on the first child bond *)
+Definition ex6_st : stree Z := SNode [[0; 1]] [SNode [[0; 1]] []; SNode [[0; 1]] []].
+Definition ex6_g : qtree Z := QNode [2] [QNode [0; 1] []; QNode [1] []].
+Definition ex6_tree : ttree ZRing :=
+  TNode 0%nat [2%nat] 1%nat
+    (fun ks ph p => match ks, ph, p return car ZRing with
+                    | [1%nat; 0%nat], [0%nat], 0%nat => 3      (* child labels 1 + 1, own state 0 *)
+                    | [0%nat; 0%nat], [1%nat], 0%nat => 5      (* child labels 0 + 1, own state 1 *)
+                    | _, _, _ => 0 end)
+    [TNode 1%nat [2%nat] 2%nat (fun ks ph p => match ks, ph, p return car ZRing with
+                                       | [], [0%nat], 0%nat => 1 | [], [1%nat], 1%nat => 1 | _, _, _ => 0 end) [];
+     TNode 2%nat [2%nat] 1%nat (fun ks ph p => match ks, ph, p return car ZRing with [], [1%nat], 0%nat => 1 | _, _, _ => 0 end) []].
+Definition ex6_pt : ptree :=
+  PNode [[1%nat; 0%nat; 0%nat; 0%nat]; [0%nat; 0%nat; 1%nat; 0%nat]]
+    [PNode [[0%nat; 0%nat]; [1%nat; 1%nat]] []; PNode [[1%nat; 0%nat]] []].
+
+Example C06_ex_tree :
+  ttns_validb ex6_st ex6_g ex6_pt 2 = true /\
+  tamp ZRing ex6_tree [[0%nat]; [1%nat]; [1%nat]] 0 = 3 /\ tcharge ex6_st ex6_tree [[0%nat]; [1%nat]; [1%nat]] = 2 /\
+  tamp ZRing ex6_tree [[1%nat]; [0%nat]; [1%nat]] 0 = 5.
+Proof. repeat split; vm_compute; reflexivity. Qed.
